@@ -182,7 +182,8 @@ def term_table(a, kind, names):
 
 
 def run_case(case, ctx):
-    from mofun.uff4mof import UFF4MOF, MAIN_GROUP_ELEMENTS
+    from mofun.uff4mof import UFF4MOF
+    from vmon.checks.c18 import MAIN_GROUP
     import mofun.rough_uff as ru
     from mofun.atomic_masses import ATOMIC_MASSES
     rng = np.random.default_rng(case["s"])
@@ -265,7 +266,7 @@ def run_case(case, ctx):
 
     def excluded(tup, minlen):
         return exclude is not None and len(exs) >= minlen and all(int(x) in exs for x in tup)
-    main_group = set(MAIN_GROUP_ELEMENTS)
+    main_group = set(MAIN_GROUP)
     # bonds
     want_b = [canon(b) for b in bonds if not excluded(b, 2)]
     got_b = [canon(b) for b in np.asarray(a.bonds).reshape(-1, 2)]
